@@ -33,6 +33,12 @@ def reported(trace, callbacks_val=None):
     return z3.simplify(tot)
 
 
+def _count_reported(c, st):
+    """ghost `reported`: running sum of the bytes_transferred values handed to the progress callbacks."""
+    st.ghost['reported'] = z3.simplify(to_int_term(st.ghost.get('reported', z3.IntVal(0))) + to_int_term(c.a_bytes_transferred))
+    return None
+
+
 def register(R):
     # ------------------------------------------------------------------ invoke_progress_callbacks
     R.external('progress_cb', **{'()': ExtSpec(raises=('Exception',), user_code=True)})
@@ -55,6 +61,7 @@ def register(R):
         params=dict(callbacks=ListOfT(ExtT('progress_cb')), bytes_transferred=Int),
         checks=ipc_checks, raises={'Exception': lambda c: {}}, raise_when={'Exception': lambda c: None},
         loops={0: trivial_loop()},
+        effects=_count_reported,
     )
 
     # ------------------------------------------------------------------ ReadFileChunk
